@@ -59,6 +59,15 @@ def models(tier):
     for c_i in (0, 1):
         a3 += [("m", c_i, "cer_p0"), ("m", c_i, "cea_ok"), ("m", c_i, "dpr"), ("eof", c_i)]
     out.append(monitors.ScenarioModel("persistent-peer-connecting-inbound", cfg(True, False, 2), a3, MONS, max_socks=3, start_plan=["refused"]))
+    # three persistent peers, the first of them without addresses (it connects inbound and is lost): it can never be dialled, and it
+    # must not keep the node from dialling the others when their wait is over
+    three = cfg(True, False, 2, ips=False)
+    three["peers"] += [{"name": "peer2.example.org", "ips": ["10.1.0.2"], "persistent": True, "reconnect_wait": 2},
+                       {"name": "peer3.example.org", "ips": ["10.1.0.3"], "persistent": True, "reconnect_wait": 3}]
+    three["apps"][0]["peers"] = [0, 1, 2]
+    out.append(monitors.ScenarioModel("three-persistent-peers-the-first-without-addresses", three,
+                                      [("tick", 1), ("plan", "refused"), ("accept",), ("m", 0, "cer_p0"), ("eof", 0), ("m", 1, "cea_ok"), ("m", 2, "cea_ok"), ("eof", 1)],
+                                      MONS, max_socks=5, start_plan=["refused", "refused"]))
     # both ends dial each other; the peer spells its name in capitals in its CEA / CER (DiameterIdentity compares case-insensitively);
     # either connection is lost while the other one lives on: the peer still has a connection and must not be dialled again
     for always in (False, True):
